@@ -45,7 +45,7 @@ type Result struct {
 	// configuration, the rest are the executed operations with explicit arguments. A script replays
 	// without the tape and stays valid when the generator changes.
 	Script []json.RawMessage `json:"script,omitempty"`
-	Crash      string         `json:"crash,omitempty"` // set by the supervisor when the worker died
+	Crash  string            `json:"crash,omitempty"` // set by the supervisor when the worker died
 	// ILHash / ILSteps: Engine F only: hash of the sequence of (resumed goroutine's site) decisions
 	// and their number.
 	ILHash  uint64 `json:"il_hash,omitempty"`
@@ -105,6 +105,15 @@ func (c *Ctx) Note(format string, args ...interface{}) {
 	}
 }
 
+// Diag adds diagnostic lines to the rendered log even when the log is full (at most 200 lines more).
+func (c *Ctx) Diag(format string, args ...interface{}) {
+	if c.WantLog && len(c.res.Log) < 4200 {
+		for _, l := range strings.Split(fmt.Sprintf(format, args...), "\n") {
+			c.res.Log = append(c.res.Log, "     # "+l)
+		}
+	}
+}
+
 // Seq is the current event sequence number.
 func (c *Ctx) Seq() int { return c.res.Events }
 
@@ -132,11 +141,11 @@ func (c *Ctx) Failed() bool { return len(c.res.Failures) > 0 }
 func (c *Ctx) Stop()         { c.stopped = true }
 func (c *Ctx) Stopped() bool { return c.stopped }
 
-func (c *Ctx) Fault(kind string)        { c.res.Faults[kind]++ }
+func (c *Ctx) Fault(kind string)         { c.res.Faults[kind]++ }
 func (c *Ctx) FaultN(kind string, n int) { c.res.Faults[kind] += n }
-func (c *Ctx) Probe(name string)        { c.res.Probes[name]++ }
-func (c *Ctx) Nontrivial()              { c.res.Nontrivial = true }
-func (c *Ctx) AddSimTime(ns int64)      { c.res.SimNanos += ns }
+func (c *Ctx) Probe(name string)         { c.res.Probes[name]++ }
+func (c *Ctx) Nontrivial()               { c.res.Nontrivial = true }
+func (c *Ctx) AddSimTime(ns int64)       { c.res.SimNanos += ns }
 
 // Record appends one executed operation (or the configuration, first) to the run's script.
 func (c *Ctx) Record(v interface{}) {
@@ -254,6 +263,9 @@ func RunFull(p *Property, t *tape.Tape, script []json.RawMessage, tier string, w
 }
 
 // blockedGoroutines renders the goroutines of the code under test that are parked in a bubble.
+// BlockedGoroutines describes the durably blocked goroutines of the system under test (diagnostics).
+func BlockedGoroutines() string { return blockedGoroutines() }
+
 func blockedGoroutines() string {
 	buf := make([]byte, 1<<20)
 	buf = buf[:runtime.Stack(buf, true)]
